@@ -176,6 +176,28 @@ def build_driver(name, sources, variant="def", wraps=(), extra=(), defines=()):
     return exe
 
 
+def compile_repo_file(rel, flags, tag):
+    """Compile one source file of /repo's working tree on its own (files the x86 build does not use, e.g. the portable
+    self-test protocol); returns the object path (cached by content)."""
+    os.makedirs(CACHE, exist_ok=True)
+    src = os.path.join(REPO, rel)
+    h = hashlib.sha256()
+    h.update((tag + "|" + " ".join(flags)).encode())
+    h.update(open(src, "rb").read())
+    for inc in sorted(glob.glob(os.path.join(REPO, "include", "*.h")) + glob.glob(os.path.join(os.path.dirname(src), "*.h"))):
+        h.update(open(inc, "rb").read())
+    obj = os.path.join(CACHE, "obj-%s-%s.o" % (tag, h.hexdigest()[:16]))
+    if os.path.exists(obj):
+        os.utime(obj, None)
+        return obj
+    cmd = ["gcc", "-O2", "-g", "-c", "-I" + os.path.join(REPO, "include"), "-I" + os.path.dirname(src)] + list(flags) + [src, "-o", obj + ".tmp%d" % os.getpid()]
+    rc, out = _run(cmd)
+    if rc:
+        raise RuntimeError("compile failed:\n" + " ".join(cmd) + "\n" + out[-4000:])
+    os.rename(obj + ".tmp%d" % os.getpid(), obj)
+    return obj
+
+
 if __name__ == "__main__":
     v = sys.argv[1] if len(sys.argv) > 1 else "def"
     t = time.time()
